@@ -214,6 +214,16 @@ SITES = [
     # macros/src/items/cast.rs, init.rs: floors that make validation / initialisation agree with the view
     S("ustructValidateFloor", "macros/src/items/cast.rs", r"__flatty_bytes\.get_unchecked\(\.\.(::flatty::utils::floor_mul\(__flatty_bytes\.len\(\), <Self as ::flatty::traits::FlatBase>::ALIGN\))\)", [(r"__flatty_bytes\.len\(\)", "n"), (r"<Self as FlatBase>::ALIGN", "align")], ["n", "align"]),
     S("uenumValidateFloor", "macros/src/items/cast.rs", r"data\.get_unchecked\(\.\.(::flatty::utils::floor_mul\(data\.len\(\), <Self as ::flatty::traits::FlatBase>::ALIGN\))\)", [(r"data\.len\(\)", "n"), (r"<Self as FlatBase>::ALIGN", "align")], ["n", "align"]),
+    # io/src/common/io.rs: the window arithmetic of `Buffer`
+    S("ioPrecedingLen", "io/src/common/io.rs", r"fn preceding_len\(&self\) -> usize \{(.*?)\}", [(r"self\.window\.start", "wstart")], ["wstart"]),
+    S("ioOccupiedLen", "io/src/common/io.rs", r"fn occupied_len\(&self\) -> usize \{(.*?)\}", [(r"self\.window\.start", "wstart"), (r"self\.window\.end", "wend")], ["wstart", "wend"]),
+    S("ioVacantLen", "io/src/common/io.rs", r"fn vacant_len\(&self\) -> usize \{(.*?)\}", [(r"self\.capacity\(\)", "cap"), (r"self\.window\.end", "wend")], ["cap", "wend"]),
+    S("ioContiguousEnd", "io/src/common/io.rs", r"self\.data\.copy_within\(self\.window\.clone\(\), 0\);\s*self\.window = 0\.\.\((.*?)\);", [(r"self\.window\.start", "wstart"), (r"self\.window\.end", "wend")], ["wstart", "wend"]),
+    # capacities the constructors allocate
+    S("ioSendCap", "io/src/blocking/send.rs", r"Self::new\(IoBuffer::new\(pipe, (.*?), M::ALIGN\)\)", [(r"max_msg_len\.max\(M::MIN_SIZE\)", "max(maxlen, tmin)")], ["maxlen", "tmin"]),
+    S("ioRecvCap", "io/src/blocking/recv.rs", r"Self::new\(IoBuffer::new\(pipe, (.*?), M::ALIGN\)\)", [(r"max_msg_len\.max\(M::MIN_SIZE\)", "max(maxlen, tmin)")], ["maxlen", "tmin"]),
+    S("aioSendCap", "io/src/async_/send.rs", r"Self::new\(IoBuffer::new\(pipe, (.*?), M::ALIGN\)\)", [(r"max_msg_len\.max\(M::MIN_SIZE\)", "max(maxlen, tmin)")], ["maxlen", "tmin"]),
+    S("aioRecvCap", "io/src/async_/recv.rs", r"Self::new\(IoBuffer::new\(pipe, (.*?), M::ALIGN\)\)", [(r"max_msg_len\.max\(M::MIN_SIZE\)", "max(maxlen, tmin)")], ["maxlen", "tmin"]),
     S("initFloor", "macros/src/items/init.rs", r"let __flatty_len = (::flatty::utils::floor_mul\(__flatty_bytes\.len\(\), <#self_ident<#self_args> as ::flatty::traits::FlatBase>::ALIGN\));", [(r"__flatty_bytes\.len\(\)", "n"), (r"<#self_ident<#self_args> as FlatBase>::ALIGN", "align")], ["n", "align"]),
 ]
 
@@ -246,6 +256,46 @@ GUARDS = [
     G("gFlexPushSeal", "containers/src/flex.rs", r"let sealed = L::from_usize\(last_offset\)\s*\.and_then\(\|o\| if (o [<>=!]+ L::max_value\(\)) \{ Some\(o\) \} else \{ None \}\)\s*\.ok_or\(Error \{\s*kind: ErrorKind::(\w+),\s*pos(?:: (.*?))?,\s*\}",
       [(r"L::max_value\(\)", "lmax"), (r"\bo\b", "off")], ["off", "lmax", "pos"]),
 ]
+# ---- conditions of the IO layer: decision points that do not produce a flatty `Error` ----------------------------------
+def C(name, file, rx, subs, nat, flags=re.S):
+    return dict(name=name, file=file, rx=rx, subs=subs, nat=list(nat), flags=flags)
+_POISON_ZERO = r"if n == 0 \{\s*if (.*?) \{\s*self\.%spoisoned = true;\s*\}\s*return %sErr\(io::ErrorKind::BrokenPipe\.into\(\)\)%s;"
+_POISON_ERR = r"Err\(e\) => \{\s*if (.*?) \{\s*self\.%spoisoned = true;\s*\}\s*return %sErr\(e\)%s;"
+CONDS = [
+    C("cIoWriteLoop", "io/src/blocking/io.rs", r"while (pos [<>=!]+ count) \{", [], ["pos", "count"]),
+    C("cIoWriteZero", "io/src/blocking/io.rs", r"Ok\(n\) => \{\s*if (n [<>=!]+ 0) \{", [], ["n"]),
+    C("cIoPoisonZero", "io/src/blocking/io.rs", _POISON_ZERO % ("", "", ""), [], ["pos"]),
+    C("cIoPoisonErr", "io/src/blocking/io.rs", _POISON_ERR % ("", "", ""), [], ["pos"]),
+    C("cIoReadFull", "io/src/blocking/io.rs", r"fn read\(&mut self\).*?if (self\.buffer\.vacant_len\(\) [<>=!]+ 0) \{", [(r"self\.buffer\.vacant_len\(\)", "vacant")], ["vacant"]),
+    C("cIoReadCompact", "io/src/blocking/io.rs", r"fn read\(&mut self\).*?if (self\.buffer\.preceding_len\(\) [<>=!]+ 0) \{\s*self\.buffer\.make_contiguous\(\);\s*\} else \{\s*return Err\(io::ErrorKind::OutOfMemory", [(r"self\.buffer\.preceding_len\(\)", "preceding")], ["preceding"]),
+    C("cIoRecvClosed", "io/src/blocking/recv.rs", r"if (self\.buffer\.read\(\)\.map_err\(RecvError::Read\)\? [<>=!]+ 0) \{\s*return Err\(RecvError::Closed\)", [(r"self\.buffer\.read\(\)\.map_err\(RecvError::Read\)\?", "n")], ["n"]),
+    C("cAioWriteLoop", "io/src/async_/io.rs", r"while (self\.pos [<>=!]+ self\.count) \{", [(r"self\.pos", "pos"), (r"self\.count", "count")], ["pos", "count"]),
+    C("cAioWriteZero", "io/src/async_/io.rs", r"Ok\(n\) => \{\s*if (n [<>=!]+ 0) \{", [], ["n"]),
+    C("cAioPoisonZero", "io/src/async_/io.rs", _POISON_ZERO % ("owner\\.", "Poll::Ready\\(", "\\)"), [(r"self\.pos", "pos")], ["pos"]),
+    C("cAioPoisonErr", "io/src/async_/io.rs", _POISON_ERR % ("owner\\.", "Poll::Ready\\(", "\\)"), [(r"self\.pos", "pos")], ["pos"]),
+    C("cAioReadFull", "io/src/async_/io.rs", r"fn poll_read\(.*?if (self\.buffer\.vacant_len\(\) [<>=!]+ 0) \{", [(r"self\.buffer\.vacant_len\(\)", "vacant")], ["vacant"]),
+    C("cAioReadCompact", "io/src/async_/io.rs", r"fn poll_read\(.*?if (self\.buffer\.preceding_len\(\) [<>=!]+ 0) \{\s*self\.buffer\.make_contiguous\(\);\s*\} else \{\s*return Poll::Ready\(Err\(io::ErrorKind::OutOfMemory", [(r"self\.buffer\.preceding_len\(\)", "preceding")], ["preceding"]),
+    C("cAioRecvClosed", "io/src/async_/recv.rs", r"if (self\.buffer\.read\(\)\.await\.map_err\(RecvError::Read\)\? [<>=!]+ 0) \{\s*return Err\(RecvError::Closed\)", [(r"self\.buffer\.read\(\)\.await\.map_err\(RecvError::Read\)\?", "n")], ["n"]),
+]
+def extract_cond(c):
+    try:
+        src = open(os.path.join(REPO, c["file"])).read()
+    except OSError as e:
+        return None, f"cannot read {c['file']}: {e}"
+    m = re.search(c["rx"], src, c["flags"])
+    if not m:
+        return None, "site not found in " + c["file"]
+    text = clean(m.group(1), c["subs"])
+    try:
+        e = parse_cond(text, [])
+        nat, boo = [], []
+        cond_vars(e, nat, boo)
+        extra = [v for v in nat if v not in c["nat"]] + boo
+        if extra:
+            return None, f"unexpected atoms {extra} in `{text}`"
+        return (e, text), None
+    except ParseError as ex:
+        return None, f"outside the grammar: `{text}`: {ex}"
 EKINDS = {"InsufficientSize": ".insufficientSize", "BadAlign": ".badAlign", "InvalidEnumTag": ".invalidEnumTag", "InvalidData": ".invalidData", "Other": ".other"}
 def clean(text, subs):
     text = re.sub(r"//[^\n]*", "", text)
@@ -364,6 +414,21 @@ def main(out_path):
             lines.append(f"def {g['name']}_pos {ps} : Nat := {lean(pe)}")
             lines.append(f"def {g['name']}_untranslatable : Bool := false")
         lines.append("")
+    lines.append("/-! ### decision points of the IO layer (conditions only) -/")
+    for c in CONDS:
+        got, err = extract_cond(c)
+        ps = f"({' '.join(c['nat'])} : Nat)"
+        if got is None:
+            problems.append(f"{c['name']}: {err}")
+            lines.append(f"/-- UNTRANSLATABLE: {err} -/")
+            lines.append(f"def {c['name']}_cond {ps} : Bool := false")
+            lines.append(f"def {c['name']}_untranslatable : Bool := true")
+        else:
+            e, text = got
+            lines.append(f"/-- `{c['file']}`: `{text}` -/")
+            lines.append(f"def {c['name']}_cond {ps} : Bool := {lean_cond(e)}")
+            lines.append(f"def {c['name']}_untranslatable : Bool := false")
+        lines.append("")
     rows, errs = portable_table()
     problems += errs
     NAT = {"u16": (2, False, False), "u32": (4, False, False), "u64": (8, False, False), "i16": (2, True, False), "i32": (4, True, False), "i64": (8, True, False), "f32": (4, False, True), "f64": (8, False, True)}
@@ -394,7 +459,7 @@ def main(out_path):
         open(out_path, "w").write(txt)
     for p in problems:
         print("UNTRANSLATABLE", p)
-    print(f"{len(SITES)} formula sites, {len(GUARDS)} decision points, {len(problems)} problems, {sum(1 for r in rows if 'native' in r)} portable instantiations, {sum(1 for r in rows if 'alias' in r)} aliases")
+    print(f"{len(SITES)} formula sites, {len(GUARDS)} + {len(CONDS)} decision points, {len(problems)} problems, {sum(1 for r in rows if 'native' in r)} portable instantiations, {sum(1 for r in rows if 'alias' in r)} aliases")
     return 0
 
 if __name__ == "__main__":
